@@ -49,6 +49,13 @@ func famLvalues() []genCase {
 		{"garr-var", "a[i]", "i = 2", "print a[2], a[i], i"},
 		{"garr-multi", "a[1, \"z\"]", "", "print a[1, \"z\"], ((1, \"z\") in a)"},
 		{"garr-float", "a[0.1 + 0.2]", "", "for (k in a) print k, a[k]"},
+		// constant subscripts at and beyond the int64 range: the same element whether named by the literal, a variable or a string
+		{"garr-huge-1e19", "a[1e19]", "k = 1e19", "print a[1e19], a[k], (k in a), (1e19 in a), (\"1e+19\" in a), length(a); for (q in a) print q"},
+		{"garr-huge-2p63", "a[9223372036854775808]", "k = 2 ^ 63", "print a[9223372036854775808], a[k], (k in a), length(a); for (q in a) print q"},
+		{"garr-huge-max", "a[18446744073709551615]", "k = 18446744073709551615", "print a[k], (k in a), (-9223372036854775808 in a), length(a); for (q in a) print q"},
+		{"garr-neg-2p63", "a[-9223372036854775808]", "k = -(2 ^ 63)", "print a[k], (k in a), (2 ^ 63 in a), length(a); for (q in a) print q"},
+		{"garr-int53", "a[9007199254740993]", "k = 9007199254740993", "print a[k], (k in a), length(a); for (q in a) print q"},
+		{"garr-1e6", "a[1e6]", "k = 1000000", "print a[k], a[\"1000000\"], (\"1e6\" in a), length(a)"},
 		{"field-const", "$2", "", "print $2; print; print NF"},
 		{"field-var", "$(i)", "i = 3", "print $3; print; print NF"},
 		{"field-beyond", "$(NF + 2)", "", "print; print NF"},
@@ -301,6 +308,13 @@ func famEvalOrder() []genCase {
 					"\t" + body(t.reset) + "\n\ty = (" + body(asg) + ")\n\tprint \"value\", y\n\t" + body(t.dump) + "\n}\nBEGIN { t(Q); t(Q) }\n"
 				out = append(out, mk("evalorder-local", lsrc, ""))
 			}
+		}
+	}
+	// an assignment to NF (or to a field) rebuilds $0 with OFS even when the value does not change
+	for _, asg := range []string{"NF = NF", "NF = 3", "NF += 0", "NF *= 1", "NF -= 0", "x = (NF = NF)", "$1 = $1", "$3 = $3", "$(NF) = $(NF)", "$2 = $2 \"\"", "NF = NF + 0", "NF++; NF--", "$(NF + 1) = \"\"; NF--"} {
+		for _, touch := range []string{"", "n = NF; ", "f = $2; ", "$0 = $0; "} {
+			src := "BEGIN { OFS = \",\" }\n{ " + touch + asg + "; print; print NF, $1, $3; $0 = $0; print NF }\n"
+			out = append(out, mk("nf-rebuild", src, "a  b   c\n  x\ty z  \n1 2 3\n\np q r s\n"))
 		}
 	}
 	// operators and calls: left operand before right one, every argument once
